@@ -1,5 +1,17 @@
 package main
 
 // pinnedDigests are the digests of the helper sources whose semantics are hand-written in Coq
-// (regenerate with `go run ./hashprog -pins` after re-deriving the Coq definitions).
-var pinnedDigests = map[string]string{}
+// (Codec/SszTree.v, Codec/HashProg.v).  Regenerate with `go run ./hashprog -pins` only after
+// re-deriving the Coq definitions from the changed Go source.
+var pinnedDigests = map[string]string{
+	"LegacyValidatorAddresses": "e1277afab6000a40",
+	"fastssz/hasher.go":        "2acfdc91b983b528",
+	"from0xHex":                "ef32ffe7b49080a5",
+	"isAnyVersion":             "5c8b26d2f6861656",
+	"leftPad":                  "8bdaa1fe195dc34a",
+	"putByteList":              "7e78d2a70994830a",
+	"putBytesN":                "ad0700018aaffa4f",
+	"putHexBytes20":            "2a8bbc7eda2ac3c3",
+	"putK1SigList":             "71f54f749ee739af",
+	"to0xHex":                  "c57a6a691bbb3fbd",
+}
